@@ -20,6 +20,9 @@ MultipartViolations(v, bb, obs) ==
                THEN {"C16.part_body"} ELSE {})
 MultipartRejectViolations(cls, obs) ==
     IF obs.outcome = "err" THEN {} ELSE {"C16." \o cls \o "_accepted"}
+MultipartStructViolations(brk, obs) ==
+    IF brk = "exact" THEN (IF obs.outcome = "ok" THEN {} ELSE {"C16.valid_body_rejected"})
+    ELSE (IF obs.outcome = "err" THEN {} ELSE {"C16." \o brk \o "_accepted"})
 \* the boundary parameter as browsers send it: Content-Type: multipart/form-data; boundary=X  ->  X
 BoundaryParamViolations(v, obs) ==
     IF obs.outcome = "ok" /\ obs.boundary = v.boundary THEN {} ELSE {"C16.boundary_parameter"}
